@@ -486,7 +486,11 @@ impl Property for C18 {
             }
             realbin::materialize(&dir, &inputs);
             let mut args = cli.args.clone();
-            args.push("--color=off".into());
+            // colour is a global option: honoured wherever it appears (v2: at a random position, else at the end)
+            let color_at = if crate::engine::gen_version() >= 2 { t.below(args.len() + 1) } else { args.len() };
+            // never between an option and its detached value
+            let color_at = if color_at > 0 && color_at < args.len() && !args[color_at].starts_with('-') && args[color_at - 1].starts_with('-') && !args[color_at - 1].contains('=') && args[color_at - 1] != "--" { args.len() } else { color_at };
+            args.insert(color_at, "--color=off".into());
             let r = realbin::run(&realbin::bin_path(false), &dir, &args, &realbin::Limits::default());
             ctx.evals += 1;
             let mut files = realbin::snapshot(&dir);
@@ -495,6 +499,11 @@ impl Property for C18 {
             let stdout = String::from_utf8_lossy(&r.stdout).to_string();
             let res: Option<(String, String)> = if r.signal.is_some() || r.timed_out {
                 Some(("real|abnormal-exit".into(), r.brief()))
+            } else if crate::engine::gen_version() >= 2 && cli.help_or_version.is_none() && (r.stderr.contains(&0x1b) || r.stdout.contains(&0x1b)) {
+                Some((
+                    if matches!(expect, Expect::RejectBeforeAssembling(_)) { "real|color-off-ignored-on-rejected-command-line".into() } else { "real|color-off-ignored".into() },
+                    format!("--color=off was given, yet the output carries ANSI escape sequences: {:?}", String::from_utf8_lossy(&r.stderr).chars().take(200).collect::<String>()),
+                ))
             } else {
                 match &expect {
                     Expect::RejectBeforeAssembling(_) | Expect::AssemblyFails => {
